@@ -132,7 +132,9 @@ class PsProc:
         return [PsProc(self.proc.child, self.trace, child=True)]
 
     def terminate(self):
-        self.proc.die(-15, "KILLED")
+        # the solver itself exits on SIGTERM; its child ignores SIGTERM (only SIGKILL ends it)
+        if not self.is_child:
+            self.proc.die(-15, "KILLED")
 
     def wait(self, timeout=None):
         return 0
